@@ -83,6 +83,8 @@ def gen_plan(rng, tier, index):
         sysk = rng.choice(["seq", "seq", "seq", "zero", "max", "rand"])
         ops.append([cat, rng.randrange(1000), body, w, sysk, rng.getrandbits(24)])
     plan = {"role": role, "active": rng.random() < 0.3, "ops": ops, "burst": rng.choice([1, 1, 2, 4, 8]),
+            "stagger": rng.choice([0, 1e-4, 3e-4, 1e-3, 5e-3, 2e-2]),
+            "stagger_steps": rng.choice([0, 0, 150, 600, 1500]),
             "noise": rng.random() < 0.3, "latency": rng.choice([0.0, 0.0005, 0.01]),
             "initial_control": rng.choice(["ATTEMPT_ONLINE", "EQUIPMENT_OFFLINE", "ONLINE", "HOST_OFFLINE"])}
     sched = dict(rng.choice(SCHEDS))
@@ -191,6 +193,7 @@ def run(sim, plan):
     while i < len(ops):
         group = ops[i:i + plan["burst"]]
         i += len(group)
+        stag = {"n": 0}
         if len(group) > 1:
             sim.probe("burst")
         for cat, pick, body_kind, w, sysk, salt in group:
@@ -221,13 +224,22 @@ def run(sim, plan):
                 sim.probe("user_callback_ok")
             system = pick_system(sysk, salt)
             used_systems.add(system)
-            peer.send_primary(s, f, None, w, system=system, raw=body)
+            # primaries of a burst arrive staggered, so that one can arrive while the previous one is being handled
+            stag["n"] += 1
+            fr = rc.data(s, f, w, system, body)
+            if plan.get("stagger_steps") and stag["n"] > 1:
+                # let the handler run a seeded number of kernel steps, then deliver the next primary at once: the arrival
+                # phase is sampled uniformly over the processing of the previous message
+                sim.run_others(1 + salt % plan["stagger_steps"], max_dt=0.2)
+                hp.send(fr, delay=0)
+            else:
+                hp.send(fr, delay=plan["latency"] + plan.get("stagger", 0) * (stag["n"] - 1))
             injected.append({"system": system, "s": s, "f": f, "w": w, "cat": cat, "body": body_kind,
                              "well_formed": well_formed, "header": rc.data(s, f, w, system, body).header_bytes})
             if plan["noise"]:
                 # an unsolicited secondary between the primaries (not judged)
                 peer.send_primary(1, 2, rc.ls(), False, system=0x7A000000 + len(injected))
-        sim.advance(0.3)
+        sim.advance(0.3 + plan.get("stagger", 0) * len(group))
         # bounded liveness: at this quiescent point every W primary injected so far has its reply (an answer that only
         # appears when later traffic arrives is no answer if none follows)
         for inj in injected:
